@@ -66,8 +66,10 @@ func computeFacts(fn *ssa.Function) *Facts {
 	entry := fn.Blocks[0]
 	F.in[entry] = factSet{}
 	changed := true
-	for changed {
+	rounds := 0
+	for changed && rounds < 60 {
 		changed = false
+		rounds++
 		for _, b := range fn.Blocks {
 			var cur factSet
 			if b == entry {
@@ -84,7 +86,7 @@ func computeFacts(fn *ssa.Function) *Facts {
 						e[k] = true
 					}
 					if ef, ok := edgeFact(p, b); ok {
-						e[ef] = true
+						F.expand(ef, e, 0)
 					}
 					if first {
 						cur = e
@@ -123,6 +125,55 @@ func computeFacts(fn *ssa.Function) *Facts {
 	return F
 }
 
+// expand adds f and what it implies when its condition is a boolean phi produced by && / || in
+// value context: phi(false from the short-circuit edge, v from the rhs block) being true means v
+// is true and the rhs block was passed (so its facts hold); dually for ||.
+func (F *Facts) expand(f fact, out factSet, depth int) {
+	out[f] = true
+	if depth > 6 {
+		return
+	}
+	cond, truth := f.cond, f.truth
+	for {
+		if u, ok := cond.(*ssa.UnOp); ok && u.Op == token.NOT {
+			cond, truth = u.X, !truth
+			continue
+		}
+		break
+	}
+	phi, ok := cond.(*ssa.Phi)
+	if !ok {
+		return
+	}
+	if bt, ok := phi.Type().Underlying().(*types.Basic); !ok || bt.Kind() != types.Bool {
+		return
+	}
+	var cand []int
+	for i, e := range phi.Edges {
+		if c, isC := constBool(e); isC {
+			if c == truth {
+				cand = append(cand, i)
+			}
+		} else {
+			cand = append(cand, i)
+		}
+	}
+	if len(cand) != 1 {
+		return
+	}
+	i := cand[0]
+	pred := phi.Block().Preds[i]
+	for k := range F.in[pred] {
+		out[k] = true
+	}
+	if ef, ok := edgeFact(pred, phi.Block()); ok {
+		F.expand(ef, out, depth+1)
+	}
+	if _, isC := constBool(phi.Edges[i]); !isC {
+		F.expand(fact{phi.Edges[i], truth}, out, depth+1)
+	}
+}
+
 // At returns the facts that hold throughout block b.
 func (F *Facts) At(b *ssa.BasicBlock) factSet { return F.in[b] }
 
@@ -133,7 +184,7 @@ func (F *Facts) OnEdge(p, b *ssa.BasicBlock) factSet {
 		e[k] = true
 	}
 	if ef, ok := edgeFact(p, b); ok {
-		e[ef] = true
+		F.expand(ef, e, 0)
 	}
 	return e
 }
